@@ -2,7 +2,7 @@
    Statements only; proofs are [exact] of lemmas in Resolver/CondFacts.v and Resolver/Spec.v. *)
 From Coq Require Import List Bool NArith ZArith Permutation.
 From PV Require Import Base.Str Base.Value Resolver.Consts Resolver.Text Resolver.Resolve Resolver.Spec Resolver.Ext
-  Resolver.Template Resolver.CondFacts.
+  Resolver.Template Resolver.CondFacts Resolver.Memo Resolver.QTree Resolver.MemoFacts.
 Import ListNotations.
 Local Open Scope N_scope.
 
@@ -111,6 +111,43 @@ Theorem C02_novalue_pruned : forall e v r, resolve e v = Ok r ->
 Proof. exact novalue_pruned. Qed.
 Print Assumptions C02_novalue_pruned.
 
+(* ---- the algorithm the code actually runs: _ConditionResolver (depth-first, a list of names in progress, a cache, and a
+        "tainted" flag that keeps every value computed while a cycle was being cut out of the cache) ---- *)
+
+(* every expression the resolver can evaluate is a query tree: its only access to condition values is an explicit question *)
+Theorem C02_resolver_is_a_query_tree : forall ps maps c v,
+  qrun c (resolve_t ps maps v) = resolve (QTree.cenv ps maps c) v.
+Proof. exact resolve_t_run. Qed.
+Print Assumptions C02_resolver_is_a_query_tree.
+
+(* resolve_all() of the memoising resolver returns exactly the specified condition values (same values, same order, same
+   error if there is one), for EVERY set of declarations: cycles, self references, undeclared names, any declaration order *)
+Theorem C02_memo_resolver_correct : forall ps maps decl,
+  match cond_all ps maps decl (keys decl) with
+  | Ok l => exists s', memo_resolve_all ps maps decl = Ok (l, s')
+  | Err e => memo_resolve_all ps maps decl = Err e
+  end.
+Proof. exact memo_resolve_all_correct. Qed.
+Print Assumptions C02_memo_resolver_correct.
+
+(* a later question to the same resolver object, in any state it can be in (a sound cache that holds no name still in
+   progress), is answered with the specified value and leaves such a state behind *)
+Theorem C02_memo_get_any_state : forall ps maps decl prog n s,
+  good (bodies_of ps maps decl) (cache s) prog ->
+  match cond_val ps maps decl (S (length decl)) (rem_of (bodies_of ps maps decl) prog) n with
+  | Ok b => exists s', mget (bodies_of ps maps decl) (S (length decl)) prog n s = Ok (b, s') /\ good (bodies_of ps maps decl) (cache s') prog
+  | Err e => mget (bodies_of ps maps decl) (S (length decl)) prog n s = Err e
+  end.
+Proof. exact memo_get_correct. Qed.
+Print Assumptions C02_memo_get_any_state.
+
+(* why the cache is safe: an entry is only ever the specified value, whatever happens to be in progress when it is read *)
+Theorem C02_cache_sound : forall bodies C, cache_ok bodies C ->
+  forall fuel rem, (forall m b, lookup m C = Some b -> mem_str m rem = true) -> (length rem < fuel)%nat ->
+  forall m b, lookup m C = Some b -> cvt bodies fuel rem m = Ok b.
+Proof. exact cache_sound. Qed.
+Print Assumptions C02_cache_sound.
+
 (* ---- witnesses ---- *)
 (* {B: {Condition: A}, A: {Fn::Equals: [a, a]}} : B is true although declared before A *)
 Definition declBA : list (str * value) :=
@@ -128,3 +165,18 @@ Example C02_ex_equals_renderings :
   resolve (cenv [] [] (fun _ => Ok false)) (VDict [(K_Equals, VList [VInt 1; VStr [49]])]) = Ok (VBool true)
   /\ resolve (cenv [] [] (fun _ => Ok false)) (VDict [(K_Equals, VList [VBool true; VStr [84;82;85;69]])]) = Ok (VBool true).
 Proof. split; vm_compute; reflexivity. Qed.
+
+(* the memoising resolver on the cyclic declarations above: same values; only [65]... nothing computed under a cut cycle
+   is cached (here every name sits on a cycle, so the cache stays empty), while an acyclic chain is cached entirely *)
+Example C02_ex_memo_cycles :
+  match memo_resolve_all [] [] declCyc with
+  | Ok (l, s) => (l, cache s)
+  | Err _ => ([], [])
+  end = ([([65], false); ([66], false); ([67], false); ([68], true)], []).
+Proof. vm_compute. reflexivity. Qed.
+Example C02_ex_memo_chain :
+  match memo_resolve_all [] [] declBA with
+  | Ok (l, s) => (l, cache s)
+  | Err _ => ([], [])
+  end = ([([66], true); ([65], true)], [([66], true); ([65], true)]).
+Proof. vm_compute. reflexivity. Qed.
